@@ -3,8 +3,9 @@
 //
 // Virtual time: the controller is configured with delays of whole hours (1 model unit = 1 h), so
 // its real time.AfterFunc timers never fire during a case. The driver is the timer runtime: it
-// keeps a virtual clock, notices newly armed timers (pointer change; delay read back from the
-// controller's recorded due time), notices timers the code stopped (Timer.Stop probe) and runs a
+// keeps a virtual clock, notices newly armed timers (pointer change; they become due after the
+// CONFIGURED delay - the deadline the implementation records in failoverTime / failbackTime is only an
+// observable compared with the Model's), notices timers the code stopped (Timer.Stop probe) and runs a
 // due timer's function through the verif hook — either when the model event says it fires, or
 // later as a stale fire if the code stopped it after it was due. The role-change callback blocks
 // until the case's CbReturn event releases it, so executions are split exactly at the callback.
@@ -65,7 +66,8 @@ type cbWait struct {
 
 type trk struct {
 	t        *time.Timer
-	deadline int64
+	deadline int64 // when the driver (the timer runtime) lets it fire: armed instant + the CONFIGURED delay
+	recorded int64 // the deadline the implementation recorded (failoverTime / failbackTime): an observable
 	pending  bool
 }
 
@@ -82,6 +84,7 @@ type world struct {
 	mu      sync.Mutex
 	events  []string
 	unit    time.Duration
+	cfg     Cfg
 	srv     *httptest.Server
 	mode    atomic.Value // how the scripted partner answers the next health check
 	hev     int // health notification of the current step (1 partner_down 2 partner_up 3 check_failed 4 check_succeeded)
@@ -145,7 +148,7 @@ func newWorld(cfg Cfg, evs []Ev) *world { return newWorldU(cfg, evs, unit) }
 
 func newWorldU(cfg Cfg, evs []Ev, u time.Duration) *world {
 	lg := zap.NewNop()
-	w := &world{entered: make(chan *cbWait), unit: u}
+	w := &world{entered: make(chan *cbWait), unit: u, cfg: cfg}
 	w.mode.Store("ok")
 	endpoint := "127.0.0.1:1"
 	if usesHTTP(evs) {
@@ -203,7 +206,7 @@ func probe(t *time.Timer) bool {
 }
 
 // syncTimer reconciles the driver's view of one controller timer after an event.
-func (w *world) syncTimer(cur *time.Timer, due time.Time, tr **trk, z *int) {
+func (w *world) syncTimer(cur *time.Timer, due time.Time, conf int, tr **trk, z *int) {
 	old := *tr
 	if old != nil && old.t != cur {
 		// replaced by a new timer object
@@ -223,7 +226,7 @@ func (w *world) syncTimer(cur *time.Timer, due time.Time, tr **trk, z *int) {
 			return
 		}
 		d := int64(math.Round(float64(time.Until(due)) / float64(unit)))
-		*tr = &trk{t: cur, deadline: w.now + d, pending: probe(cur)}
+		*tr = &trk{t: cur, deadline: w.now + int64(conf), recorded: w.now + d, pending: probe(cur)}
 		return
 	}
 	if old.pending && !probe(old.t) {
@@ -235,7 +238,7 @@ func (w *world) syncTimer(cur *time.Timer, due time.Time, tr **trk, z *int) {
 	if !old.pending && probe(old.t) { // re-armed in place (Reset): not done by the code today
 		old.pending = true
 		d := int64(math.Round(float64(time.Until(due)) / float64(unit)))
-		old.deadline = w.now + d
+		old.deadline, old.recorded = w.now+int64(conf), w.now+d
 	}
 }
 
@@ -351,8 +354,17 @@ func coqN(v int) string {
 func (w *world) observe(res string, cb *cbWait) string {
 	fo, fb := w.c.VerifTimers()
 	fod, fbd := w.c.VerifDeadlines()
-	w.syncTimer(fo, fod, &w.fo, &w.foZ)
-	w.syncTimer(fb, fbd, &w.fb, &w.fbZ)
+	w.syncTimer(fo, fod, w.cfg.Delay, &w.fo, &w.foZ)
+	w.syncTimer(fb, fbd, w.cfg.FbDelay, &w.fb, &w.fbZ)
+	rec := func(t *trk) string {
+		if t == nil || !t.pending {
+			return "None"
+		}
+		if t.recorded < 0 {
+			return "(Some BadDeadline)"
+		}
+		return fmt.Sprintf("(Some %d)", t.recorded)
+	}
 	w.mu.Lock()
 	evs := w.events
 	w.events = nil
@@ -373,9 +385,9 @@ func (w *world) observe(res string, cb *cbWait) string {
 	if cb != nil {
 		cbs = "(Some " + coqRole(cb.role) + ")"
 	}
-	return fmt.Sprintf("mkOut %s %s (%d,%d,%d,%d) %s %s %s %d %d %s (%s,%s) %d %s (%s)", coqRole(w.c.CurrentRole()), sts, i, c, x, f,
+	return fmt.Sprintf("mkOut %s %s (%d,%d,%d,%d) %s %s %s %d %d %s (%s,%s) %d (%s,%s) %s (%s)", coqRole(w.c.CurrentRole()), sts, i, c, x, f,
 		vh.List(evs), vh.Bool(w.fo != nil && w.fo.pending), vh.Bool(w.fb != nil && w.fb.pending), w.foZ, w.fbZ,
-		vh.Bool(w.m.IsPartnerHealthy()), coqN(hl.ConsecutiveFailures), coqN(hl.ConsecutiveSuccesses), hev, cbs, res)
+		vh.Bool(w.m.IsPartnerHealthy()), coqN(hl.ConsecutiveFailures), coqN(hl.ConsecutiveSuccesses), hev, rec(w.fo), rec(w.fb), cbs, res)
 }
 
 // ---- real-time stream: the REAL time.AfterFunc timers fire by themselves ----
@@ -391,7 +403,7 @@ func (w *world) observe(res string, cb *cbWait) string {
 // failover timer armed; failback_pending with no callback outstanding <=> failback timer armed), which
 // holds on these stale-free single-execution histories. An [Advance] step repeats the previous
 // observation (nothing of the implementation runs at a clock move).
-func (w *world) observeRT(res string, cb *cbWait) (full, quiet string) {
+func (w *world) observeRT(res string, cb *cbWait, dl string) (full, quiet string) {
 	w.mu.Lock()
 	evs := w.events
 	w.events = nil
@@ -419,22 +431,32 @@ func (w *world) observeRT(res string, cb *cbWait) (full, quiet string) {
 		cbs = "(Some " + coqRole(cb.role) + ")"
 	}
 	mk := func(evs []string, hev int, cbs, res string) string {
-		return fmt.Sprintf("mkOut %s %s (%d,%d,%d,%d) %s %s %s 0 0 %s (%s,%s) %d %s (%s)", coqRole(w.c.CurrentRole()), sts, i, c, x, f,
+		return fmt.Sprintf("mkOut %s %s (%d,%d,%d,%d) %s %s %s 0 0 %s (%s,%s) %d %s %s (%s)", coqRole(w.c.CurrentRole()), sts, i, c, x, f,
 			vh.List(evs), vh.Bool(sts == "Pending"), vh.Bool(sts == "FailbackPending" && !fbOut),
-			vh.Bool(w.m.IsPartnerHealthy()), coqN(hl.ConsecutiveFailures), coqN(hl.ConsecutiveSuccesses), hev, cbs, res)
+			vh.Bool(w.m.IsPartnerHealthy()), coqN(hl.ConsecutiveFailures), coqN(hl.ConsecutiveSuccesses), hev, dl, cbs, res)
 	}
 	// quiet = the same state observed again with nothing having happened (for clock moves)
 	return mk(evs, hev, cbs, res), mk(nil, 0, "None", "RNone")
 }
 
-// RT describes one real-time case: thresholds, delays in ms, and the script
-//   promote   : F failed checks, wait for the promotion
-//   cancel    : F failed checks, R successful ones after a third of the delay, then 2 x delay of silence
-//   flap      : F-1 failed, 1 ok, F-1 failed (no report), silence for 2 x delay; then as promote
-//   failback  : promote, then R successful checks, wait for the failback
+// RT describes one real-time case: thresholds, delays in ms, and a script of steps
+//   D     FailureThreshold failed checks (a down report)      d  FailureThreshold-1 failed checks (no report)
+//   U     RecoveryThreshold successful checks (an up report)   u  one successful check
+//   s33 / s120   sleep that percentage of the failover delay
+//   wfo / wfb    wait (long) until the failover / failback timer's function enters the role-change callback
+//   ok / fail    the oldest outstanding callback returns nil / an error
+//   quiet        2 x the failover delay passes; whether a failover timer function entered the callback is recorded
+//   force        operator ForceFailover (its callback stays outstanding until ok / fail)
+// so a case is a sequence of down episodes: cancelled ones, promoted ones, full failover / failback cycles,
+// a forced failover while a timed one is pending, a failed callback, followed by ANOTHER episode.
 type RT struct {
 	Cfg    Cfg    `json:"cfg"`
 	Script string `json:"script"`
+}
+
+type armRec struct {
+	tb, ta time.Time // real instants just before / after the event that armed the timer
+	clk    int       // model time of that event
 }
 
 func runRT(rt RT) (vh.Case, bool) {
@@ -443,27 +465,95 @@ func runRT(rt RT) (vh.Case, bool) {
 	defer w.close()
 	var tr []string
 	last := ""
-	emit := func(op string, full, quiet string) { tr = append(tr, vh.Pair(op, full)); last = quiet }
+	T0 := time.Now()
+	clk := 0 // model time = real milliseconds since T0, rounded down, at the last emitted Advance
+	var armFO, armFB *armRec
 	ms := func(d time.Duration) int { return int(d / time.Millisecond) }
-	checksN := func(k string, n int) time.Time {
-		t := time.Now()
-		for ; n > 0; n-- {
-			op, res, cb := w.apply(Ev{K: k})
-			f, q := w.observeRT(res, cb)
-			emit(op, f, q)
+	D, FD := time.Duration(cfg.Delay)*time.Millisecond, time.Duration(cfg.FbDelay)*time.Millisecond
+	// the deadline the implementation recorded, as model time: the Model's value when the recorded instant
+	// lies where it must (between arming-event-start + delay and arming-event-end + delay: exact bounds, no
+	// tolerance), otherwise the recorded instant itself (pushed off the Model's value)
+	one := func(a *armRec, rec time.Time, delay time.Duration, dms int) string {
+		if a == nil {
+			return "None"
 		}
-		return t
+		want := a.clk + dms
+		switch {
+		case rec.Before(a.tb.Add(delay)):
+			v := ms(rec.Sub(T0))
+			if v >= want {
+				v = want - 1
+			}
+			if v < 0 {
+				v = 0
+			}
+			return fmt.Sprintf("(Some %d)", v)
+		case rec.After(a.ta.Add(delay)):
+			v := ms(rec.Sub(T0))
+			if v <= want {
+				v = want + 1
+			}
+			return fmt.Sprintf("(Some %d)", v)
+		}
+		return fmt.Sprintf("(Some %d)", want)
 	}
-	// waitFire waits (at most lim) until a timer-started execution enters the callback; emits
-	// Advance(elapsed since t0, minus what was already advanced) and the Fire event
-	advanced := 0
-	advTo := func(t0 time.Time, t time.Time) {
-		if d := ms(t.Sub(t0)) - advanced; d > 0 {
+	dl := func() string {
+		fot, fbt := w.c.VerifDeadlines()
+		st := w.c.State()
+		fbOut := false
+		for _, x := range w.infl {
+			if x.kind == "fb" {
+				fbOut = true
+			}
+		}
+		a, b := "None", "None"
+		if st == ha.FailoverStatePending {
+			a = one(armFO, fot, D, cfg.Delay)
+		}
+		if st == ha.FailoverStateFailbackPending && !fbOut {
+			b = one(armFB, fbt, FD, cfg.FbDelay)
+		}
+		return "(" + a + "," + b + ")"
+	}
+	emit := func(op string, full, quiet string) { tr = append(tr, vh.Pair(op, full)); last = quiet }
+	_, last = w.observeRT("RNone", nil, "(None,None)")
+	obs := func(op, res string, cb *cbWait) {
+		f, q := w.observeRT(res, cb, dl())
+		emit(op, f, q)
+	}
+	advTo := func(t time.Time) {
+		if d := ms(t.Sub(T0)) - clk; d > 0 {
 			emit(fmt.Sprintf("Advance %d", d), last, last)
-			advanced += d
+			clk += d
 		}
 	}
-	waitFire := func(t0 time.Time, fire, kind string, lim time.Duration) bool {
+	valid := true
+	// inject n identical check results; the model time of each is the real time just before it
+	checksN := func(k string, n int) {
+		for ; n > 0; n-- {
+			st0 := w.c.State()
+			tb := time.Now()
+			advTo(tb)
+			op, res, cb := w.apply(Ev{K: k})
+			ta := time.Now()
+			st1 := w.c.State()
+			if st0 != st1 && st1 == ha.FailoverStatePending {
+				armFO = &armRec{tb, ta, clk}
+			}
+			if st0 != st1 && st1 == ha.FailoverStateFailbackPending {
+				armFB = &armRec{tb, ta, clk}
+			}
+			if st0 == ha.FailoverStatePending && st1 != st0 && armFO != nil && ta.Sub(armFO.tb) >= D-2*time.Millisecond {
+				valid = false // a cancellation so late that the real timer may have fired first: not a case
+			}
+			if st0 == ha.FailoverStateFailbackPending && st1 != st0 && armFB != nil && ta.Sub(armFB.tb) >= FD-2*time.Millisecond {
+				valid = false
+			}
+			obs(op, res, cb)
+		}
+	}
+	// waitFire waits (at most lim) until a timer-started execution enters the callback
+	waitFire := func(fire, kind string, lim time.Duration) bool {
 		select {
 		case cw := <-w.entered:
 			now := time.Now()
@@ -471,29 +561,30 @@ func runRT(rt RT) (vh.Case, bool) {
 			cw.done, cw.kind = done, kind
 			close(done)
 			w.infl = append(w.infl, cw)
-			advTo(t0, now)
-			f, q := w.observeRT("RFire true", cw)
-			emit(fire, f, q)
+			advTo(now)
+			obs(fire, "RFire true", cw)
 			return true
 		case <-time.After(lim):
-			advTo(t0, time.Now())
-			f, q := w.observeRT("RFire false", nil)
-			emit(fire, f, q)
+			advTo(time.Now())
+			obs(fire, "RFire false", nil)
 			return false
 		}
 	}
 	release := func(ok bool) {
+		if len(w.infl) == 0 {
+			return
+		}
 		cw := w.infl[0]
 		w.infl = w.infl[1:]
 		st0 := w.c.State()
+		advTo(time.Now())
 		if ok {
 			cw.release <- nil
 		} else {
 			cw.release <- errors.New("role change refused")
 		}
-		// the execution continues in the runtime's timer goroutine: wait until it has published its
-		// result (an error: the state change is its last action; success: role_changed is the last
-		// event it emits)
+		// the execution continues in another goroutine: wait until it has published its result (an
+		// error: the state change is its last action; success: role_changed is the last event it emits)
 		for i := 0; i < 10000; i++ {
 			w.mu.Lock()
 			n := len(w.events)
@@ -503,10 +594,8 @@ func runRT(rt RT) (vh.Case, bool) {
 			}
 			time.Sleep(time.Millisecond)
 		}
-		f, q := w.observeRT("RNone", nil)
-		emit(fmt.Sprintf("CbReturn 0 %s", vh.Bool(ok)), f, q)
+		obs(fmt.Sprintf("CbReturn 0 %s", vh.Bool(ok)), "RNone", nil)
 	}
-	D, FD := time.Duration(cfg.Delay)*time.Millisecond, time.Duration(cfg.FbDelay)*time.Millisecond
 	F, R := cfg.Fthr, cfg.Rthr
 	if F < 1 {
 		F = 1
@@ -514,46 +603,56 @@ func runRT(rt RT) (vh.Case, bool) {
 	if R < 1 {
 		R = 1
 	}
-	valid := true
-	switch rt.Script {
-	case "promote", "failback":
-		t0 := checksN("down", F)
-		if waitFire(t0, "FireFO", "fo", 20*D+5*time.Second) {
+	long := 20*D + 20*FD + 5*time.Second
+	for _, step := range strings.Fields(rt.Script) {
+		switch step {
+		case "D":
+			checksN("down", F)
+		case "d":
+			checksN("down", F-1)
+		case "U":
+			checksN("up", R)
+		case "u":
+			checksN("up", 1)
+		case "wfo":
+			waitFire("FireFO", "fo", long)
+		case "wfb":
+			waitFire("FireFB", "fb", long)
+		case "quiet":
+			waitFire("FireFO", "fo", 2*D)
+		case "ok":
 			release(true)
-			if rt.Script == "failback" {
-				advanced = 0
-				t1 := checksN("up", R)
-				if waitFire(t1, "FireFB", "fb", 20*FD+5*time.Second) {
-					release(true)
-				}
+		case "fail":
+			release(false)
+		case "force":
+			advTo(time.Now())
+			op, res, cb := w.apply(Ev{K: "forcefo"})
+			obs(op, res, cb)
+		default:
+			var pct int
+			if _, err := fmt.Sscanf(step, "s%d", &pct); err != nil {
+				panic("bad realtime step " + step)
 			}
-		}
-	case "cancel":
-		t0 := checksN("down", F)
-		time.Sleep(D / 3)
-		tUp := time.Now()
-		advTo(t0, tUp)
-		checksN("up", R)
-		if time.Since(t0) >= D-10*time.Millisecond { // too slow to say which came first: not a case
-			valid = false
-		}
-		waitFire(t0, "FireFO", "fo", 2*D)
-	case "flap":
-		t0 := checksN("down", F-1)
-		checksN("up", 1)
-		checksN("down", F-1)
-		if waitFire(t0, "FireFO", "fo", 2*D) {
-			release(true)
-		} else {
-			advanced = 0
-			t1 := checksN("down", F)
-			if waitFire(t1, "FireFO", "fo", 20*D+5*time.Second) {
-				release(true)
-			}
+			time.Sleep(D * time.Duration(pct) / 100)
 		}
 	}
 	return vh.Case{Coq: "(" + coqCfg(cfg) + ",\n  " + vh.List(tr) + ")", Desc: rt,
-		Tags: []string{"realtime", "realtime:" + rt.Script, fmt.Sprintf("thresholds:%d/%d", cfg.Fthr, cfg.Rthr)}}, valid
+		Tags: []string{"realtime", "realtime:" + strings.ReplaceAll(rt.Script, " ", "_"), fmt.Sprintf("thresholds:%d/%d", cfg.Fthr, cfg.Rthr)}}, valid
+}
+
+var rtScripts = []string{
+	"D wfo ok",                       // one episode, promoted
+	"D s33 U quiet",                  // cancelled by a recovery
+	"d u d quiet D wfo ok",           // flapping below the threshold: nothing; then a real episode
+	"D wfo ok U wfb ok",              // failover and failback
+	"D s33 U s120 D wfo ok",          // cancelled episode, SECOND episode after the first deadline has passed
+	"D s33 U D s33 U D wfo ok",       // two cancelled episodes, third promotes
+	"D s33 U D s33 U s120 D s33 U quiet", // three cancelled episodes
+	"D wfo ok U wfb ok D wfo ok",     // full cycle, then a second promotion
+	"D wfo ok U wfb ok D s33 U quiet", // full cycle, then a cancelled episode
+	"D wfo fail U D wfo ok",          // refused promotion, recovery, next episode
+	"D s33 force quiet ok",           // forced failover while a timed one is pending: its timer must be dead
+	"D s33 force ok quiet U wfb ok D wfo ok", // ... and the episode after the forced one
 }
 
 func realtimeCases(thorough bool) []vh.Case {
@@ -563,8 +662,8 @@ func realtimeCases(thorough bool) []vh.Case {
 		ths = append(ths, [2]int{2, 3}, [2]int{4, 1})
 	}
 	for _, th := range ths {
-		for _, sc := range []string{"promote", "cancel", "flap", "failback"} {
-			rts = append(rts, RT{Cfg: Cfg{Delay: 150, FbDelay: 90, FbEnabled: true, Orig: "standby", Fthr: th[0], Rthr: th[1]}, Script: sc})
+		for _, sc := range rtScripts {
+			rts = append(rts, RT{Cfg: Cfg{Delay: 400, FbDelay: 120, FbEnabled: true, Orig: "standby", Fthr: th[0], Rthr: th[1]}, Script: sc})
 		}
 	}
 	out := make([]*vh.Case, len(rts))
@@ -573,8 +672,11 @@ func realtimeCases(thorough bool) []vh.Case {
 		wg.Add(1)
 		go func(i int) {
 			defer wg.Done()
-			if cs, ok := runRT(rts[i]); ok {
-				out[i] = &cs
+			for try := 0; try < 3; try++ { // a case invalidated by a scheduling stall is run again
+				if cs, ok := runRT(rts[i]); ok {
+					out[i] = &cs
+					return
+				}
 			}
 		}(i)
 	}
@@ -733,6 +835,52 @@ func explore(cfg Cfg, depth int, seeds []string) []vh.Case {
 var seedPrefixes = []string{
 	"down adv10", "down adv10 firefo", "down adv10 firefo cb0ok", "down adv10 firefo cb0ok up",
 	"down adv10 firefo cb0ok up adv12", "down adv10 firefo cb0ok up adv12 firefb", "down adv10 up down",
+}
+
+// further starting states, all AFTER a first down episode (standard configuration only): recovery one
+// tick before / at / one tick after the deadline, a completed failover + failback cycle, a forced failover
+// while the timed one is pending, a refused promotion, a second episode under way
+var episodePrefixes = []string{
+	"down adv9 up", "down adv10 up", "down adv11 up", "down adv10 firefo cb0ok up adv12 firefb cb0ok",
+	"down adv3 forcefo", "down adv10 firefo cb0fail", "down adv9 up adv3 down adv9",
+}
+
+// one down episode each (written for thresholds 1/1, expanded to the case's thresholds)
+var episodeKinds = []string{
+	"down adv9 up",   // recovery one tick before the deadline
+	"down adv10 up",  // recovery at the deadline (the timer was due when stopped)
+	"down adv11 up",  // recovery one tick after it
+	"down adv10 firefo cb0ok up adv12 firefb cb0ok",                      // failover and failback
+	"down adv10 firefo cb0ok up adv5 down tick up adv12 firefb cb0ok",    // ... failback cancelled once
+	"down adv3 forcefo adv10 firefo cb0ok cb0ok up adv12 firefb cb0ok",   // forced while the timed one is pending
+	"down adv10 firefo cb0fail up",                                       // refused promotion
+	"down adv10 up stalefo cb0ok",                                        // a stale fire after the cancellation
+	"down adv4 up adv1 down adv4 up",                                     // two short flaps
+}
+
+// episodes: every ordered pair (thorough: triple) of episode kinds, a gap, then one more episode in
+// which the timer is tried one tick early and at its deadline.
+func episodeCases(thorough bool) []vh.Case {
+	var out []vh.Case
+	tail := "down adv9 firefo cb0ok adv1 firefo cb0ok"
+	for _, th := range [][2]int{{1, 1}, {3, 2}} {
+		cfg := Cfg{Delay: 10, FbDelay: 12, FbEnabled: true, Orig: "standby", Fthr: th[0], Rthr: th[1]}
+		n := len(episodeKinds)
+		lim := n * n
+		if thorough {
+			lim = n * n * n
+		}
+		for x := 0; x < lim; x++ {
+			seq := episodeKinds[x%n] + " adv2 " + episodeKinds[x/n%n]
+			if thorough {
+				seq += " adv13 " + episodeKinds[x/n/n%n]
+			}
+			seq += " adv1 " + tail
+			cs, _ := run(Case{Cfg: cfg, Evs: expand(parseEvs(seq), cfg)}, "episodes")
+			out = append(out, cs)
+		}
+	}
+	return out
 }
 
 func genRandom(r *vh.Rng, maxLen int) Case {
@@ -1104,7 +1252,7 @@ func main() {
 		depth, nrand, maxLen = 5, 2500, 40
 	}
 	std := Cfg{Delay: 10, FbDelay: 12, FbEnabled: true, Orig: "standby", Fthr: 1, Rthr: 1}
-	ex := explore(std, depth, seedPrefixes)
+	ex := explore(std, depth, append(append([]string(nil), seedPrefixes...), episodePrefixes...))
 	ex = append(ex, explore(Cfg{Delay: 10, FbDelay: 12, FbEnabled: false, Orig: "standby", Fthr: 1, Rthr: 1}, depth, seedPrefixes[:4])...)
 	ex = append(ex, explore(Cfg{Delay: 10, FbDelay: 12, FbEnabled: true, Orig: "active", Fthr: 1, Rthr: 1}, 2, nil)...)
 	// the repository's default thresholds (3 failures / 2 successes): the counters are part of the fingerprint
@@ -1117,7 +1265,7 @@ func main() {
 		ex = append(ex, explore(Cfg{Delay: 10, FbDelay: 12, FbEnabled: true, Orig: "standby", Fthr: 2, Rthr: 3}, depth-2, seedPrefixes[:5])...)
 	}
 	vh.Emit(cfg, "exhaustive", header, footer, ex, map[string]interface{}{"exhaustive": true,
-		"exhaustive_note": fmt.Sprintf("breadth-first over the 19-event alphabet to depth %d from the initial state and from up to 7 seeded deeper states, for thresholds 1/1 (three configurations), 3/2 (thorough: one level less) and (thorough tier, two levels less) 2/3; a sequence is extended only when it reaches a new implementation-state fingerprint (role, state, health flag, consecutive-failure / -success counters capped at the thresholds, timer remaining times, zombie timers, outstanding callbacks, age of the down report)", depth)})
+		"exhaustive_note": fmt.Sprintf("breadth-first over the 19-event alphabet to depth %d from the initial state and from up to 14 seeded deeper states (7 of them after a first down episode), for thresholds 1/1 (three configurations), 3/2 (thorough: one level less) and (thorough tier, two levels less) 2/3; a sequence is extended only when it reaches a new implementation-state fingerprint (role, state, health flag, consecutive-failure / -success counters capped at the thresholds, timer remaining times, zombie timers, outstanding callbacks, age of the down report)", depth)})
 	r := vh.NewRng(cfg.Seed)
 	var cases []vh.Case
 	for i := 0; i < nrand; i++ {
@@ -1148,5 +1296,7 @@ func main() {
 		flap = append(flap, cs)
 	}
 	vh.Emit(cfg, "flap", header, footer, flap, nil)
+	vh.Emit(cfg, "episodes", header, footer, episodeCases(cfg.Thorough()), map[string]interface{}{"exhaustive": true,
+		"exhaustive_note": "every ordered pair (thorough: triple) of 9 kinds of down episode (recovery at deadline-1 / deadline / deadline+1, failover+failback, failback cancelled once, forced failover while the timed one is pending, refused promotion, stale fire, short flaps) followed by one more episode whose timer is tried one tick early and at its deadline; thresholds 1/1 and 3/2"})
 	vh.Emit(cfg, "realtime", header, footer, realtimeCases(cfg.Thorough()), map[string]interface{}{"note": "the controller's real time.AfterFunc timers fire by themselves (delays in milliseconds); model time = measured real time rounded down; timer-pending flags filled from State()"})
 }
